@@ -719,9 +719,12 @@ for ns in (1, 2, 3, 4, 5, 6, 7, 8, 13, 100, 1000003, (1 << 29) - 1, 1 << 29):
                           domain='nside %d: every double point of the HEALPix image with y in the %s band%s, polar base-cell borders included' % (
                               ns, bn, '' if quad == 255 else ' and x in [%d, %d%s' % (2 * quad, 2 * quad + 2, ']' if quad == 3 else ')'))))
     if small or ns == 100:
-        _c11.append(H('c11_center_n%d' % ns, 'k_c11_center(%d);' % ns, tiers=(Q if ns in (1, 2, 3) else T), timeout=2400, mem_gb=8, unwind=3, stubs=_PLANE_CUT('verif_c11'),
-                      inputs=[('h', 'u64')], replay='c11_center', replay_const={'nside': ns}, covers=['last cell'],
-                      domain='nside %d: every cell number' % ns))
+        # nside >= 2: split in three ranges of cell numbers (the unsplit harness takes 4-13 min)
+        for part in ((255,) if ns == 1 else (0, 1, 2)):
+            _c11.append(H('c11_center_n%d%s' % (ns, '' if part == 255 else '_p%d' % part), 'k_c11_center(%d, %d);' % (ns, part), tiers=(Q if ns in (1, 2, 3) else T), timeout=1200 if ns <= 3 else 2400,
+                          mem_gb=8, unwind=3, stubs=_PLANE_CUT('verif_c11'),
+                          inputs=[('h', 'u64')], replay='c11_center', replay_const={'nside': ns}, covers=['last cell', 'last cell of the part'],
+                          domain='nside %d: every cell number%s' % (ns, '' if part == 255 else ' of third %d of the range' % part)))
     _c11.append(H('c11_order_n%d' % ns, 'k_c11_order(%d);' % ns, tiers=((Q if ns == 1 else T) if small else T), timeout=2400, mem_gb=8, unwind=3,
                   inputs=[('r', 'u64')], replay='c11_order', replay_const={'nside': ns}, covers=['last pair'],
                   domain='nside %d: every pair of consecutive cell numbers' % ns))
@@ -848,7 +851,7 @@ _KEEP_T = {
     'C08': r'^(?!c08_(or_2_1|xor_1_2)_dm11)',
     'C09': r'^(?!c09_views_\w+_3_dm1$)(?!c09_views_array_)',
     'C10': r'_d(2|3)$|^c10_\w+_eqr_d(5|8|16|17|28)$|^c10_ringends_[ns]_(d26_k67108800|d29_k536870848|d29_k402653184)$',
-    'C11': r'^c11_(center|order)_n(2|3|4|5|7|8|13|536870911|536870912)$|^c11_point_\w+_n(3|5)_q\d$|^c11_point_\w+_n(1|2)$|^c11_seam_n2$',
+    'C11': r'^c11_order_n(2|3|4|5|7|8|13|536870911|536870912)$|^c11_center_n(4|5|7|8)_p\d$|^c11_point_\w+_n(3|5)_q\d$|^c11_point_\w+_n(1|2)$|^c11_seam_n2$',
     'C14': r'^c14_(internal|parts|dirs)_',
     'C15': r'^(?!c15_fixed_)|^c15_fixed_(d1_cap2_m2)$',
     'C16': r'.',
